@@ -1,6 +1,7 @@
 import Momo.Proof.SegMachine
 import Momo.Proof.SegArr
 import Momo.Proof.TrEqSeg
+import Momo.Proof.TrEqMisc2Math
 /-!
 # C16 — SegmentedArray never moves elements and indexes them consistently
 
@@ -282,5 +283,35 @@ theorem C16_roundtrip_translated_cnst (L0 index : Nat) (hL : L0 < 64) (hf : Fits
 
 example : Tr.segSqrt_GetSegItemIndexes 3 1000 = (21, 48) := by decide
 example : Tr.segSqrt_GetIndex 3 21 48 = 1000 := by decide
+
+/-! #### area Misc (tools/trspecs/Misc.py → `Momo/Translated/Misc.lean`; equivalences: `Proof/TrEqMisc2Math.lean`) -/
+
+/-- **C16 (log2) for the code as translated from Utility.h**, 8-byte `size_t`: `UIntMath<>::Log2` and the de Bruijn
+`pvLog2` it calls — table, the six `value |= value >> s` lines, `value -= value >> 1`, multiplier and final shift all read
+from the current header text — return `⌊log2 v⌋` for every `0 < v < 2^64`. -/
+theorem C16_log2_translated (v : Nat) (h0 : 0 < v) (h : v < 2 ^ 64) :
+    Tr.um_Log2 v = Nat.log2 v ∧ Tr.um_pvLog2_64 v = Nat.log2 v := by
+  rw [TrEq.tr_Log2 v h, TrEq.tr_pvLog2_64 v h]
+  exact ⟨C16_log2_debruijn64 v h0 h, C16_log2_debruijn64 v h0 h⟩
+
+/-- **C16 (log2, 4-byte variant) for the code as translated** (`uint32_t` arithmetic: the product wraps mod 2^32). -/
+theorem C16_log2_32_translated (v : Nat) (h0 : 0 < v) (h : v < 2 ^ 32) : Tr.um_pvLog2_32 v = Nat.log2 v := by
+  rw [TrEq.tr_pvLog2_32 v h]
+  exact C16_log2_debruijn32 v h0 h
+
+/-- **No hand-written `Log2` is left under the translated index functions**: the two log helpers of the sqrt sizing
+(translated by the base table with their call of `UIntMath<>::Log2` bound to the model `log2db64`) are their own text with that
+call bound to the *translated* `Log2` — so `C16_roundtrip_translated_sqrt` is about header text only. -/
+theorem C16_log_helpers_use_translated_log2 (i1 s : Nat) (h : i1 < 2 ^ 64) :
+    Tr.segSqrt_pvIndexToLogItemCount i1 = (add64 (Tr.um_Log2 i1) 1) / 2 ∧
+    Tr.segSqrt_pvSegIndexToLogItemCount s = Tr.um_Log2 ((add64 (mul64 s 2) 4) / 3) :=
+  ⟨TrEq.tr_sqrt_indexToLog_um i1 h, TrEq.tr_sqrt_segToLog_um s⟩
+
+/-- `SegmentedArraySettings<cnst>::GetItemCount` as translated is the machine-level model, hence the ideal segment size. -/
+theorem C16_itemCount_translated_cnst (L0 s : Nat) (hL : L0 < 64) : Tr.segCnst_GetItemCount L0 = itemCount .cnst L0 s := by
+  rw [TrEq.tr_cnst_getItemCount L0 s]
+  exact itemCount64_cnst_eq L0 s hL
+
+example : Tr.um_Log2 1000 = 9 ∧ Tr.um_pvLog2_32 (2 ^ 31) = 31 ∧ Tr.um_Log2 (2 ^ 64 - 1) = 63 := by decide +kernel
 
 end Momo.Seg
